@@ -208,6 +208,14 @@ func c10Writer(p *core.Prog, r *core.Report) {
 			}
 		})
 		r.Check(early, "C10-R1", fname(g), "failed writer sends no second terminal frame", p.Pos(g.Pos()), "returns early under response.err != nil", "a response that already failed can still emit an error frame")
+		// precisely: the frame is sent only under "the response WRITER has not
+		// failed" (its own sticky error; a writer refused after the deadline
+		// has failed although the request reader has not)
+		if wErr := p.Field("", "reqResWriter", "err"); wErr != nil && len(sends) == 1 {
+			okW := factsAt(sends[0].Block()).nilCmp(func(v ssa.Value) bool { return core.LoadedField(v) == wErr }, true)
+			r.Check(okW, "C10-R1", fname(g), "the error frame is sent only while the response writer has not failed", p.Pos(sends[0].Pos()), "dominated by reqResWriter.err == nil",
+				"the error frame can be sent after the response writer failed (e.g. writes refused after the deadline): a frame for an expired exchange - whose id the caller may have re-used - is queued")
+		}
 	}
 }
 
